@@ -218,6 +218,9 @@ def opC16Colorfy : List String → Res
   | [h] => match unhex h with
     | some msg =>
       let r := hexOf (render (colorfy defaultTbl msg)) ++ ";same"
+      -- tie G: `Colorfy` as translated from the working tree, painting with nothing: the message itself must come out
+      let gen := Gen.Brush.Colorfy { parseFloat := fun _ => (0, none) } msg
+      if gen != Outcome.ok msg then { m := "TRANSLATED-COLORFY-ALTERS-TEXT-OR-PANICS", s := r, t := c16tags msg } else
       { m := r, s := r, t := c16tags msg }
     | none => bad
   | _ => bad
